@@ -3,7 +3,10 @@ overriding, brace-elided and string forms; address constants in static mode."""
 from . import gen_types
 
 INTVALS = [0, 1, -1, 2, 7, 42, 100, 127, -128, 255, 1000, 32767, -32768, 65535, 123456, 2147483647, -2147483647, 0x7fffffffff, -5]
-FLTVALS = ['0.0', '1.0', '-1.5', '2.25', '1e10', '0.5f', '3.0', '-0.0', '100.125']
+FLTVALS = ['0.0', '1.0', '-1.5', '2.25', '1e10', '0.5f', '3.0', '-0.0', '100.125',
+           # doubles that need all 17 significant digits, the limits of both formats, values that round differently as float
+           '0.1', '0.30000000000000004', '1.0000000000000002', '1.6666666666666667', '3.141592653589793', '2.2250738585072014e-308', '1.7976931348623157e308', '4.9406564584124654e-324',
+           '0.1f', '16777217.0', '1e-45f', '3.4028234663852886e38', '0x1.fffffffffffffp+0', '1.0 / 3.0', '0.1 + 0.2', '-5.0 / 3.0', '9007199254740993.0', '0.7', '123456789.12345678', '1e23', '8.41e21']
 RANGE = {'_Bool': (0, 1), 'char': (0, 127), 'signed char': (-128, 127), 'unsigned char': (0, 255), 'short': (-32768, 32767), 'unsigned short': (0, 65535),
          'int': (-2147483647, 2147483647), 'unsigned': (0, 4294967295), 'long': (-(1 << 62), 1 << 62), 'unsigned long': (0, 1 << 63),
          'long long': (-(1 << 62), 1 << 62), 'unsigned long long': (0, 1 << 63)}
@@ -25,7 +28,7 @@ class G:
     def scalar(self, ty, width=None):
         r = self.r
         if ty in ('float', 'double', 'long double'):
-            return r.choice(FLTVALS + ['3', '-7'])
+            return r.choice([v for v in FLTVALS if not (ty == 'float' and v == '1.7976931348623157e308')] + ['3', '-7'])   # beyond FLT_MAX the conversion is undefined
         if ty in ('void *', 'char *'):
             k = r.random()
             if k < 0.2:
@@ -64,7 +67,8 @@ class G:
             v = self.scalar(m.ty)
             return '{ %s }' % v if r.random() < 0.05 else v
         if m.kind == 'bitfield':
-            return self.scalar(m.ty, m.width)
+            v = self.scalar(m.ty, m.width)
+            return '{ %s }' % v if r.random() < 0.08 else v
         if m.kind == 'array':
             return self.array(m, depth)
         if m.kind in ('agg', 'anon'):
